@@ -23,6 +23,7 @@ STR_ATTRS = [S(''), S('abc'), S('ABC'), S('aBc'), S('ab'), S('b'), S('xabcx'), S
              S('a\r\nb'), S('a\nb'), S('line1\nline2'), S('a\tb'),
              # texts that look like versions, timestamps, numbers, keywords: a string operator must not reinterpret them
              S('1.9.0'), S('1.10.0'), S('1.0.0-rc1'), S('1.0.0+a'), S('2024-01-01T00:00:00Z'), S('2024-01-01T00:00:00.2Z'), S('2024-01-01T00:00:00.7'), S('2024-01-01T01:00:00+01:00'), S('10'), S('9'), S('1e3'), S('0x10'),
+             S('a{b}'), S('a[b]'), S('a~'), S('a^'), S('a`'), S('a@'), S('a_b'), S('a\x7fb'), S('a|b'), S('a\\b'), S('a\ufffd'), S('\ufffd'), S(b'caf\xe9'), S('caf\ufffd'),
              S('${HOME}'), S('$HOME'), S(os.environ.get('HOME', '/root')), S('${PATH}'), S('%s'), S('~'), S('${USER:-x}'),
              S('k'), S('\u212a'), S('i'), S('\u03c9'), S('\u2126'), S('\u1e9e'), S('istanbul'), S('\u0130stanbul'), S('300 \u212a')]
 VER_ATTRS = [S('1.0.0'), S('1.9.0'), S('1.10.0'), S('2.0.0'), S('1.0.0-beta'), S('1.0.0-alpha.1'), S('1.0.0-alpha.beta'),
@@ -30,9 +31,9 @@ VER_ATTRS = [S('1.0.0'), S('1.9.0'), S('1.10.0'), S('2.0.0'), S('1.0.0-beta'), S
              S('1.0.0.'), S('01.0.0'), S('1.0.0-01'), S('1.0.0-'), S('1.0.0+'), S('18446744073709551615.0.0'),
              S('18446744073709551616.0.0'), S('1.0.0-a_b'), S('1..0'), S(' 1.0.0'), S('1.0.0-rc.1'), S('1.0.0-rc.1.1'), S('0.0.0'),
              S('1.0.0-\u212a'), S('1.0.0+build.\u212a'), S('1.0.0-\u0130'), S('1.0.0-RC.1'), S('1.0.0-\u00e9'), S('\uff11.0.0'), S('1.0.0-rc\u2024 1')]
-STRINGER_ATTRS = [('str', b'abc'), ('str', b'ABC'), ('str', b'1.0.0'), ('str', b''), ('strptr', b'abc'), ('strpanic',), ('strnilptr',), ('strselfpanic',),
-                  ('jnum', b'12'), ('jnum', b'2.25'), ('jnum', b'1'), ('jnum', b'abc'), ('strslice', b'abc'), ('strslice', b'10.0.0.1'), ('strreent', b'abc'), ('strreent', b'1.0.0'), ('strver', b'1.0.0'), ('strverptr', b'1.0.0'), ('strver', b'1.2.3-rc.1+b5')]
-MISC_ATTRS = [('nil',), ('b', True), ('b', False), ('m', []), ('m', [(b'a', I(1))]), ('nilmap',)] + [('o', t) for t in list(range(21)) + [22, 23, 24, 25, 26, 27, 29, 30, 31, 32, 33, 34, 35, 36, 37, 38, 39, 40, 41, 42, 43]]
+STRINGER_ATTRS = [('str', b'abc'), ('str', b'ABC'), ('str', b'1.0.0'), ('str', b''), ('strptr', b'abc'), ('strpanic',), ('strnilptr',), ('strselfpanic',), ('strpanicinvop',), ('strpanicinvopw',),
+                  ('jnum', b'12'), ('jnum', b'2.25'), ('jnum', b'1'), ('jnum', b'abc'), ('strslice', b'abc'), ('strslice', b'10.0.0.1'), ('strreent', b'abc'), ('strreent', b'1.0.0'), ('strsame', b'abc'), ('strsame', b'1.0.0'), ('strver', b'1.0.0'), ('strverptr', b'1.0.0'), ('strver', b'1.2.3-rc.1+b5')]
+MISC_ATTRS = [('nil',), ('b', True), ('b', False), ('m', []), ('m', [(b'a', I(1))]), ('nilmap',)] + [('o', t) for t in list(range(21)) + [22, 23, 24, 25, 26, 27, 29, 30, 31, 32, 33, 34, 35, 36, 37, 38, 39, 40, 41, 42, 43, 44, 45, 46, 47, 48, 49]]
 OTHER_TYPED = [a for a in MISC_ATTRS if a[0] == 'o']   # every non-string, non-number Go type the driver can build
 ABSENT = ('absent',)   # pseudo value: key not in the object
 
@@ -47,15 +48,16 @@ DOUBLE_LITS = ['0.0', '1.0', '-1.0', '1.5', '1.7', '-0.5', '2.0', '5.0', '100.0'
                '0.1000000000000000055511151231257827021181583404541015625', '1.7976931348623157e308', '1.7976931348623159e308']
 STR_LITS = ['', 'abc', 'ABC', 'aBc', 'ab', 'b', 'bc', 'x', ' abc', 'abc ', ' ', 'É', 'é', 'ß', 'Σ', 'ς', '日本', '1', 'true', 'a b', '1.0.0',
             'a\r\nb', 'a\nb', '\r\n', '\n', '1.9.0', '1.10.0', '1.0.0+B', '2024-01-01T00:00:00Z', '2024-01-01T00:00:00.5Z', '2023-12-31T23:00:00-01:00', '10', '9', '1000', '16',
+            'a{b}', 'a[b]', 'a~', 'a^', 'a`', 'a@', 'a_b', 'a|b', '\ufffd', 'a\ufffd', 'caf\ufffd',
             '${HOME}', '$HOME', '${PATH}', '%s', '%d', '~', '${PWD}', '$(pwd)', '{{.Home}}', '%HOME%', '${HOME}/x',
             'k', '\u212a', 'i', '\u0130', '\u03c9', '\u2126', '\u1e9e', 'istanbul', '300 k']
 VER_LITS = ['1.0.0', '1.9.0', '1.10.0', '2.0.0', '0.0.0', '1.0.1', '18446744073709551615.0.0', '18446744073709551616.0.0', '10.2.33']
 INTS_LITS = [['1'], ['1', '2', '5'], ['5', '1', '1'], ['0'], ['9223372036854775807'], ['9223372036854775808'], ['2', '9007199254740993', '100'],
              ['40', '7', '19', '1', '88', '21', '5', '64', '12'], ['9', '8', '7', '6', '5', '4', '3', '2', '1', '0'], ['1', '2', '3', '4', '5', '6', '7', '8', '9', '10', '11', '12'],
              ['5', '3', '5', '100', '3', '2', '2', '1', '7', '0', '5']]
-DOUBLES_LITS = [['1.0'], ['1.5', '2.5'], ['2.5', '1.5', '1.5'], ['0.0'], ['1.0e999'], ['1.7', '100.0', '-0.5'],
+DOUBLES_LITS = [['1.5', '1.0e999'], ['-1.0e999', '2.5'], ['1.0e999', '-1.0e999'], ['1.0'], ['1.5', '2.5'], ['2.5', '1.5', '1.5'], ['0.0'], ['1.0e999'], ['1.7', '100.0', '-0.5'],
                 ['40.5', '7.25', '19.0', '1.5', '88.0', '21.0', '5.0', '64.0', '1.0'], ['9.5', '8.5', '7.5', '6.5', '5.0', '4.5', '3.5', '2.5', '1.5', '0.5']]
-STRINGS_LITS = [['abc'], ['ABC', 'b'], ['b', 'ABC', 'b'], [''], ['É', 'x'], ['1.0.0'], ['z', 'y', 'x', 'w', 'v', 'u', 'abc', 't', 's', 'b']]
+STRINGS_LITS = [['a[b]'], ['a{b}', 'q'], ['a^', 'a@', 'a_b'], ['a\ufffd'], ['\ufffd', 'x'], ['caf\ufffd', 'b'], ['abc'], ['ABC', 'b'], ['b', 'ABC', 'b'], [''], ['É', 'x'], ['1.0.0'], ['z', 'y', 'x', 'w', 'v', 'u', 'abc', 't', 's', 'b']]
 
 def all_literals():
     out = [('bool', 'true'), ('bool', 'false'), ('null',)]
@@ -290,7 +292,8 @@ SOUP = ['x', 'y.z', 'a-b_c:d', 'order', 'android', 'nota', 'pr', 'prx', 'eq', 'E
         'co', 'sw', 'ew', 'in', 'IN', 'and', 'or', 'AND', 'OR', 'not', 'NOT', 'Not', 'true', 'false', 'TRUE', 'null', 'NULL',
         '1', '0', '01', '12', '-', '-1', '1.5', '-1.5', '1.', '.5', '1.2.3', '1.2.3.4', '01.2.3', '1e5', '1e+5', 'e5', 'E-3', '1.5e3', '1.5e+03',
         '"abc"', '""', '"a\\"b"', '"a\\nb"', '"a\\qb"', '"\\u00e9"', '"\\u00g9"', '"unterminated', '"É"', '"a b"', '[', ']', '[1,2]', '[1, 2]', '[1 ,2]', '["a","b"]', '[1.5,2.5]', '[1,2.5]', '[]', '[1,]',
-        '(', ')', ' ', '  ', '\n', ' \n', ' \n\n', '\t', ',', ', ', '.', '..', '~', '=', '!', '&&', '||', '\u00c9', '\u00a0', '\u2003', '\u0085', '\u3000', '\u200b', '\r']
+        '(', ')', ' ', '  ', '\n', ' \n', ' \n\n', '\t', ',', ', ', '.', '..', '~', '=', '!', '&&', '||', '\u00c9', '\u00a0', '\u2003', '\u0085', '\u3000', '\u200b', '\r',
+        '/', '//', '// c', '/*', '*/', '#', '--', ';', '<>', '&', '|', '?', '$', '@', '%', '^', '*', '+', '`', "'", '\\', '{', '}', ':', '=<', '=>', '===', '!==', '~=', 'is', 'like', 'xor', 'between', 'contains']
 
 def mutate(rng, s):
     if not s:
@@ -298,10 +301,10 @@ def mutate(rng, s):
     k = rng.randrange(9)
     i = rng.randrange(len(s))
     if k == 0: return s[:i] + s[i+1:]                                   # delete a char
-    if k == 1: return s[:i] + rng.choice(' \n()[].,-"~1ae') + s[i:]     # insert a char
+    if k == 1: return s[:i] + rng.choice(' \n()[].,-"~1ae/#;<>=&|?$*\'') + s[i:]     # insert a char
     if k == 2 and i + 1 < len(s): return s[:i] + s[i+1] + s[i] + s[i+2:]  # swap
     if k == 3: return s[:i]                                            # truncate
-    if k == 4: return s + rng.choice([' garbage', ' and', ')', ' )', '(', ' or ', ' AND y eq 2', ' 1', '\n', ' \n', '\t', ' pr', '.x', ',', '"'])
+    if k == 4: return s + rng.choice([' garbage', ' and', ')', ' )', '(', ' or ', ' AND y eq 2', ' 1', '\n', ' \n', '\t', ' pr', '.x', ',', '"', ' // note', '//', ' # note', ' -- note', ';', ' /* note */', ' && y eq 2', ' || y eq 2'])
     if k == 5: return rng.choice(['(', 'not ', 'not', ' ', 'x ', ')']) + s
     if k == 6:
         j = s.find(' ', i)
@@ -364,11 +367,22 @@ CONFUSABLES = ['x eq \u201cabc\u201d', 'x eq \u2018a\u2019', 'x in [\u201ca\u201
                'x eq 1 and\u00a0y eq 2', 'x \u2260 1', 'x \u2265 1', 'x \u2264 1', 'x eq \u22121', 'x eq 1\u200b', 'x\u200b eq 1', 'x eq "a\u201d', '\u201cx\u201d eq 1', 'x eq 1 \u2227 y eq 2',
                'x in \uff3b1,2\uff3d', 'x in [1\uff0c2]', 'x eq 1\uff0e5', 'x.y eq 1'.replace('.', '\u3002'), 'x eq true'.replace('t', '\u0442'), 'n\u043et (x eq 1)', '\ufeffx eq 1', 'x eq 1\ufeff',
                '\ufeff(x eq 1)', '\ufffex eq 1', '\u2060x eq 1', '\u00adx eq 1']
+FOREIGN = ['x <> 2', 'y <> 1 and x eq 1', '(s <> "abd")', 'not (x <> 3 and x <> 1)', 'x = 2', 'x === 2', 'x =< 2', 'x => 2', 'x !== 2', 'x ~= 2', 'x && y', 'x eq 1 && y eq 2', 'x eq 1 || y eq 2',
+           'x eq 1 & y eq 2', 'x eq 1 | y eq 2', '!x', '!(x eq 1)', 'x is null', 'x is not null', 'x like "a"', 'x contains "a"', 'x not in [1]', 'x between 1 and 2', 'x eq 1 xor y eq 2', 'x >< 2', 'x <=> 2',
+           'x \u2264 2', 'x \u2260 2', 'x \u2265 2', 'x eq 1 // the default tier', 'x eq 1//', '// note\nx eq 1', 'x eq 1 //\nand y eq 2', 'x eq 1 # c', '# c\nx eq 1', 'x eq 1 -- c', '/* c */ x eq 1', 'x eq 1 /* c */',
+           'x eq /* c */ 1', 'x eq 1;', 'x eq 1; y eq 2', 'x eq 1, y eq 2', 'x eq 1 y eq 2', 'x eq 1 and\ty eq 2', 'x eq 1 AND\ny eq 2', 'x eq 1 and and y eq 2', 'x eq eq 1', 'x 1', 'eq 1', '1 eq x', '"a" eq x', 'x eq y',
+           'x eq x', 'x.y.z', 'x pr pr', 'pr x', 'x pr eq 1', 'x in 1', 'x in (1, 2)', 'x in {1, 2}', 'x in [1; 2]', 'x in [1 2]', 'x in [1,,2]', 'x in [,1]', 'x in [[1]]', 'x eq [1', 'x eq 1]', 'x eq +1', 'x eq --1', 'x eq 1_000',
+           'x eq 1,5', 'x eq 0x10', 'x eq 1e', 'x eq .5', 'x eq 5.', 'x eq 1.2.3.4', 'x eq v1.2.3', 'x eq 1.2', 'x eq 1.2.x', "x eq 'a'", 'x eq `a`', 'x eq "a" "b"', 'x eq "a"b', 'x eq a"b"', 'x eq True', 'x eq NULL', 'x eq nil',
+           'x eq none', 'x eq undefined', 'x eq NaN', 'x eq Infinity', 'x eq -Infinity', 'x eq 1 and (y eq 2', 'x eq 1 and y eq 2)', '((x eq 1)', '(x eq 1))', '()', '( )', 'not ()', 'not', 'and', 'x and y', 'x or y', 'not x',
+           'not not (x eq 1)', 'not(x eq 1)', 'NOT(x eq 1)', 'not  (x eq 1)', 'x eq 1 and not y eq 2', 'x eq 1 or not (y eq 2) and']
+FIXED_TEXTS += FOREIGN
 FIXED_TEXTS += CONFUSABLES
 
 # reserved words in attribute-path positions (after a dot, before a dot, as the whole name, as a prefix)
 KEYWORDS = ['pr', 'not', 'NOT', 'and', 'or', 'true', 'false', 'null', 'in', 'IN', 'eq', 'EQ', 'ne', 'NE', 'gt', 'GT', 'lt', 'LT', 'ge', 'GE',
-            'le', 'LE', 'co', 'CO', 'sw', 'SW', 'ew', 'EW']
+            'le', 'LE', 'co', 'CO', 'sw', 'SW', 'ew', 'EW',
+            # spelled like keywords but ordinary names (capitals of and / or / pr / true / false / null, mixed case), and names that contain one as a segment
+            'AND', 'OR', 'PR', 'TRUE', 'FALSE', 'NULL', 'And', 'Or', 'Pr', 'True', 'False', 'Null', 'Not', 'In', 'Eq', 'nOT', 'iN', 'X-OR', 'db:NULL', 'a_AND', 'OR-x', 'TRUE:x', 'x-or', 'is-null', 'not-x', 'in:x', 'x:in', 'pr-1']
 for _k in KEYWORDS:
     FIXED_TEXTS += ['a.%s eq 1' % _k, 'a.%s pr' % _k, '%s.a eq 1' % _k, 'a.%s.b pr' % _k, 'a.%sx eq 1' % _k, 'a.x%s pr' % _k, '%s eq 1' % _k,
                     'a.%s eq 1 and b pr' % _k, '(a.%s pr)' % _k, 'a eq 1 or b.%s in [1]' % _k]
